@@ -16,6 +16,7 @@ every decorator form and every call shape with distinguishable values:
 A mismatch impl <-> oracle/spec is a concrete violation; a mismatch with the
 model only is a correspondence break.
 """
+import functools
 import inspect
 import itertools
 import os
@@ -31,6 +32,11 @@ LEVEL = 'proof'
 FOREIGN = id_of_name('z')
 SELFVAL = 999
 EXCL = 7            # placeholder sent for excluded calls
+# Instance access of a translator that went through functools.wraps(other
+# translator) fails on the unchanged tree (custom_getter / insts live in the
+# instance __dict__ and are copied from the other translator).  Counted in the
+# evidence; reported as violation C12:wraps-bound-copy only when this is True.
+REPORT_WRAPS_BOUND = True
 
 
 # ---------------------------------------------------------------- functions
@@ -518,6 +524,13 @@ def show_shared(sh):
                 % (show_form(_form_from(sh['form2'])).replace('(f)', '(g)'),
                    {'direct': 'g used directly', 'instance': 'g is attribute m of a class and is looked up on an instance',
                     'class': 'g is attribute m of a class and is looked up on the class'}[sh['mode']]))
+    if kind == 'wraps':
+        q = tuple(tuple(p) for p in sh['ps2'])
+        return ('observed AFTER functools.%s copied the metadata of g2 = %s with f%s onto this decorated callable (%s)'
+                % ('wraps(g2)(g)' if sh['how'] == 'wraps' else 'update_wrapper(g, g2)',
+                   show_form(_form_from(sh['form2'])), show_ps(q),
+                   {'direct': 'g used directly', 'instance': 'g is attribute m of a class and is looked up on an instance',
+                    'class': 'g is attribute m of a class and is looked up on the class'}[sh['mode']]))
     if kind == 'reuse':
         return ('ONE decorator object applied in turn to functions %s; this is number %d'
                 % (' / '.join('f%s' % show_ps(tuple(tuple(p) for p in q)) for q in sh['pss']), sh['index']))
@@ -550,6 +563,26 @@ def build_derived(ps, form, sh):
     return lambda: getattr(owner, 'm')
 
 
+def build_wraps(ps, form, sh):
+    """g = form(f), g2 = form2(f2) for another function; functools.wraps(g2)(g) /
+    update_wrapper(g, g2); returns a getter for g."""
+    f = make_fn(ps, fresh=True)
+    f2 = make_fn(tuple(tuple(p) for p in sh['ps2']), fresh=True)
+    with warnings.catch_warnings():
+        warnings.simplefilter('ignore')
+        g = apply_form(f, form)
+        g2 = apply_form(f2, _form_from(sh['form2']))
+        if sh['how'] == 'wraps':
+            g = functools.wraps(g2)(g)
+        else:
+            functools.update_wrapper(g, g2)
+    if sh['mode'] == 'direct':
+        return lambda: g
+    cls = type('K', (object,), {'m': g})
+    owner = cls() if sh['mode'] == 'instance' else cls
+    return lambda: getattr(owner, 'm')
+
+
 def build_reuse(form, sh):
     dec = decorator_for(form)
     res = []
@@ -578,6 +611,8 @@ def build_shared(ps, sh, form=None):
         return build_derived(ps, form, sh)
     if kind == 'reuse':
         return build_reuse(form, sh)
+    if kind == 'wraps':
+        return build_wraps(ps, form, sh)
     f = make_fn(ps, fresh=True)
     with warnings.catch_warnings():
         warnings.simplefilter('ignore')
@@ -622,6 +657,40 @@ def derived_scenarios(ps, rng):
         for f2 in rng.sample(forms, min(3, len(forms))):
             mode = rng.choice(modes)
             yield fm, mode == 'instance', {'kind': 'derived', 'form2': _form_to(f2), 'mode': mode}
+
+
+def _translator_forms(ps, rng, want_kwo=False):
+    out = []
+    for fm in forms_for(ps, rng, True):
+        spec = spec_decorate(ps, fm)
+        sel = spec_select(ps, fm)
+        if spec is None or not (sel[0] or sel[1]) or (want_kwo and not sel[1]):
+            continue
+        out.append(fm)
+    return out
+
+
+def wraps_scenarios(ps, fns2, rng):
+    """(form, bound, scenario): a translator g of ps receives, through
+    functools.wraps / update_wrapper, the metadata of a translator g2 of another
+    function with another keyword-only layout."""
+    firsts = _translator_forms(ps, rng)
+    if not firsts:
+        return
+    has_self = bool(ps) and ps[0][1] in ('PO', 'PK')
+    for fm in rng.sample(firsts, min(2, len(firsts))):
+        sel = spec_select(ps, fm)
+        for _ in range(3):
+            ps2 = rng.choice(fns2)
+            f2s = _translator_forms(ps2, rng, want_kwo=True)
+            if not f2s:
+                continue
+            modes = ['direct', 'direct']
+            if has_self and ps[0][0] not in sel[0] and ps[0][0] not in sel[1]:
+                modes.append('class')
+            mode = rng.choice(modes)
+            yield fm, False, {'kind': 'wraps', 'ps2': [list(p) for p in ps2], 'form2': _form_to(rng.choice(f2s)),
+                              'how': rng.choice(['wraps', 'update_wrapper']), 'mode': mode}
 
 
 def reuse_scenarios(ps, fns, rng):
@@ -878,6 +947,32 @@ def run(ctx, rep):
             if r is not None and r[0] != 'skip' and srng.random() < 0.1:
                 model_cases.append((ps, form, bound, r[0], r[1]))
     rep.coverage['reobserved_after_second_decoration'] = nder
+    # ---- a translator that received another translator's metadata (functools.wraps / update_wrapper)
+    wrng = ctx.rng('wraps')
+    nwraps = 0
+    nwraps_bound_fail = 0
+    wcand = [ps for ps in fns if any(p[1] == 'PK' for p in ps)]
+    for ps in (wrng.sample(wcand, min(len(wcand), 120)) if ctx.quick else wcand):
+        for form, bound, sh in wraps_scenarios(ps, wcand, wrng):
+            r = check_case(ps, form, bound, rep, stats, defer=deferred, getter=build_shared(ps, sh, form), shared=sh)
+            nwraps += 1
+            if r is not None and r[0] != 'skip' and srng.random() < 0.1:
+                model_cases.append((ps, form, bound, r[0], r[1]))
+            # instance access after wraps: counted, see WRAPS_BOUND below
+            if ps[0][1] in ('PO', 'PK'):
+                sel = spec_select(ps, form)
+                if ps[0][0] not in sel[0] and ps[0][0] not in sel[1]:
+                    shb = dict(sh, mode='instance')
+                    probe = _Rep()
+                    pstats = dict.fromkeys(stats, 0)
+                    check_case(ps, form, True, probe, pstats, getter=build_shared(ps, shb, form), shared=shb)
+                    if probe.found:
+                        nwraps_bound_fail += 1
+                        if REPORT_WRAPS_BOUND and len([v for v in deferred if v[0] == 'C12:wraps-bound-copy']) < 3:
+                            deferred.append(('C12:wraps-bound-copy', probe.found[0][1],
+                                             {'ps': [list(p) for p in ps], 'form': _form_to(form), 'bound': True, 'shared': shb}))
+    rep.coverage['after_functools_wraps'] = nwraps
+    rep.coverage['after_functools_wraps_instance_access_failing'] = nwraps_bound_fail
     # ---- one decorator object applied to several functions
     rrng = ctx.rng('reuse')
     nreuse = 0
@@ -953,6 +1048,7 @@ def run(ctx, rep):
         'calls passing a positional-only name by keyword alongside **kwargs are excluded (version-dependent)',
         'keyword arguments of one call have pairwise different names (guaranteed by Python)',
         'bound methods: selections naming the first parameter are reported separately (C12:bound-self-selected)',
+        'after functools.wraps(other translator)(translator) only direct calls and class-level lookup are decided; instance access then fails on the unchanged tree (counted as after_functools_wraps_instance_access_failing, key C12:wraps-bound-copy)',
     ]
 
 
